@@ -104,6 +104,10 @@ SameData(a,b) == /\ a.mt = b.mt
                  /\ (a.mt \in {2,3} => a.str = b.str)
                  /\ Len(a.kids) = Len(b.kids)
                  /\ \A j \in 1..Len(a.kids) : SameData(a.kids[j], b.kids[j])
+\* equal as ENCODED items (same data and the same encoding choices): two datums of one value in two encodings are two datums
+RECURSIVE SameEnc(_,_)
+SameEnc(a,b) == /\ a.mt = b.mt /\ a.ai = b.ai /\ a.arg = b.arg /\ a.indef = b.indef /\ a.str = b.str /\ a.chunks = b.chunks
+                /\ Len(a.kids) = Len(b.kids) /\ \A j \in 1..Len(a.kids) : SameEnc(a.kids[j], b.kids[j])
 \* the same, but map entries may come in another order (content of a value whose maps were not filled in ascending order)
 RECURSIVE SameContent(_,_)
 SameContent(a,b) == /\ a.mt = b.mt
